@@ -172,7 +172,8 @@ Section RowSync.
     | EWait i yw nd =>
         match nth_error (workers s) i with
         | Some (AtMB y x _ _) =>
-            if phase_eqb (nth i ph PhIdle) PhBegun && (0 <? y) && (yw =? y - 1) && (nd =? needed x)
+            (* any requirement at least as strong as the model's guard (and satisfiable) is safe *)
+            if phase_eqb (nth i ph PhIdle) PhBegun && (0 <? y) && (yw =? y - 1) && ((needed x <=? nd) && (nd <=? mbW))
             then Some (s, set_nth ph i PhWaited) else None
         | _ => None
         end
